@@ -599,6 +599,33 @@ class Program:
                 key = f"logd:{kb}:malformed:{what}:accepted"
                 self.fails.append((key, d, "an error", rec[1], f"evaluation with a {what} variable returns a number"))
 
+    def call_query(self):
+        """accessors of a joint: _get_fixed_variables(), dim, get_density(name) for every density (tie); oracle: the fixed
+        variables and the parameter names partition the variables of the model"""
+        from cuqi.distribution import Distribution
+        from cuqi.likelihood import Likelihood
+        obj = self.obj_
+        kb = kind_of(self.cuqi, obj)
+        try:
+            with quiet():
+                fixed = [str(t) for t in obj._get_fixed_variables()]
+                dim = obj.dim
+                dims = [int(t) for t in dim] if isinstance(dim, (list, tuple)) else [int(dim)]
+                dens = []
+                for d in obj._densities:
+                    g = obj.get_density(d.name)
+                    dens.append(f"{d.name}=" + ("L" if isinstance(g, Likelihood) else ("D" if isinstance(g, Distribution) else "E")))
+                names = [str(t) for t in obj.get_parameter_names()]
+            rec = "q:" + (",".join(fixed) or ".") + "!" + (",".join(str(t) for t in dims) or "_") + "!" + (",".join(dens) or ".")
+            allv = sorted(v.name for v in self.vs if v in self.order or True)
+            present = sorted(v.name for v in self.order)
+            if sorted(fixed + names) != present:
+                self.fails.append((f"query:{kb}:partition", {**self.desc, "calls": list(self.tokens), "record": len(self.impl)},
+                                   present, sorted(fixed + names), "fixed variables and parameter names do not partition the variables of the joint"))
+        except Exception as e:  # noqa
+            rec = "err:" + type(e).__name__
+        self._record("Q", rec, {"op": "query", "kind": kb, "mode": "-", "what": "valid"})
+
     def call_simple(self, token, fn, what):
         obj = self.obj_
         kb = kind_of(self.cuqi, obj)
@@ -795,6 +822,8 @@ class Program:
                     self.gen_eval(rng.choice(["short", "long", "short", "unknown"]))
                 else:
                     self.gen_eval(rng.choice(["missing", "unknown", "double", "toomany", "renamed", "renamed", "double-shift", "fixed-only"]))
+            elif r < 0.62 and r >= 0.58 and is_joint:
+                self.call_query()
             elif r < 0.58 and is_joint and not stacked_done:
                 stacked_done = self.call_simple("S", lambda o: o._as_stacked(), "valid")
                 self.gen_eval()
@@ -1187,6 +1216,8 @@ def compare(model_rec, impl_rec):
     """None if equal, else short description"""
     if model_rec == "?":
         return None
+    if isinstance(impl_rec, str) and (impl_rec.startswith("q:") or model_rec.startswith("q:")):
+        return None if model_rec == impl_rec else "accessor results differ (fixed variables ! dim ! density kinds by name)"
     if isinstance(impl_rec, tuple):
         if not model_rec.startswith("val:"):
             return "model refuses / changes object, implementation returns a number"
